@@ -108,7 +108,7 @@ def g1(ctx):
     for name, mut_names in (('PyTreeTypeRegistry::RegisterImpl', {'emplace', 'insert', 'try_emplace'}),
                             ('PyTreeTypeRegistry::UnregisterImpl', {'erase'})):
         fs = [f for f in prog.by_suffix(name) if not f.dependent]
-        ctx.require(len(fs) == 2, '%s: %d instantiations' % (name, len(fs)))
+        ctx.require(len(fs) in (1, 2), '%s: %d instantiations' % (name, len(fs)))   # G7 decides that both are used
         for f in fs:
             cfg = cfg_of(f)
             parent = enclosing_map(f.body)
@@ -404,7 +404,7 @@ def g6(ctx):
     n = 0
     for name in ('PyTreeTypeRegistry::RegisterImpl', 'PyTreeTypeRegistry::UnregisterImpl'):
         fs = [f for f in prog.by_suffix(name) if not f.dependent]
-        ctx.require(len(fs) == 2, '%s: %d instantiations' % (name, len(fs)))
+        ctx.require(len(fs) in (1, 2), '%s: %d instantiations' % (name, len(fs)))   # G7 decides that both are used
         for f in fs:
             cfg = cfg_of(f)
             muts = _map_calls(f, {'emplace', 'insert', 'try_emplace', 'erase', 'clear', 'operator[]',
@@ -571,3 +571,47 @@ def ns1(ctx):
                           % (inst(g), '; '.join(bad)), c.loc)
     ctx.require(rec_sites >= 5, 'only %d self-recursive engine calls found' % rec_sites)
     ctx.analysed['recursive_call_sites'] = rec_sites
+
+
+@rule('G7', floor=4, title='a registration lives in both registries: Register / Unregister call their Impl once per NoneIsLeaf variant')
+def g7(ctx):
+    """The engine keeps two registries (None-is-node and None-is-leaf).  A type is registered or
+    unregistered in both by the same call, unconditionally, and each Impl instantiation works on
+    the singleton of its own flag - otherwise flattening with one none_is_leaf value sees a
+    registry the other does not."""
+    prog = ctx.cxx()
+    for outer, impl in (('PyTreeTypeRegistry::Register', 'RegisterImpl'),
+                        ('PyTreeTypeRegistry::Unregister', 'UnregisterImpl')):
+        f = prog.one(outer)
+        cfg = cfg_of(f)
+        calls = [c for c in calls_in(f.body, {impl})]
+        variants = []
+        for c in calls:
+            t = callee_func(prog, f, c)
+            variants.append(tuple(t.targs) if t is not None else None)
+        ok = len(calls) == 2 and None not in variants and len(set(variants)) == 2
+        ctx.check('%s/both-variants' % short(f), ok,
+                  '%s calls %s once for each of the two registries' % (inst(f), impl),
+                  '%s calls %s for the variants %s: one of the two registries (None-is-node / '
+                  'None-is-leaf) is not updated, or one is updated twice'
+                  % (inst(f), impl, [('<%s>' % ','.join(v)) if v else '?' for v in variants]), f.loc)
+        # unconditionally: each call is on every path from entry to the normal exit
+        skipped = []
+        for c in calls:
+            cn = cfg.cnode_of(c)
+            if cn is None or cfg.exit.idx in cfg.reachable_from([cfg.entry.idx], None, {cn}):
+                skipped.append(c)
+        ctx.check('%s/unconditional' % short(f), not skipped,
+                  '%s: both %s calls are on every path to the normal exit' % (inst(f), impl),
+                  '%s can return without the %s call at %s' % (inst(f), impl, skipped[0].loc if skipped else ''),
+                  skipped[0].loc if skipped else f.loc)
+        # each instantiation works on the singleton of its own flag
+        for g in [x for x in prog.by_suffix('PyTreeTypeRegistry::' + impl) if not x.dependent]:
+            sing = [c for c in calls_in(g.body, {'Singleton'})]
+            own = []
+            for c in sing:
+                t = callee_func(prog, g, c)
+                own.append(t is not None and tuple(t.targs) == tuple(g.targs))
+            ctx.check('%s/own-singleton' % short(g), bool(sing) and all(own),
+                      '%s works on Singleton<its own NoneIsLeaf>' % inst(g),
+                      '%s reaches for the registry of the other NoneIsLeaf value (or none)' % inst(g), g.loc)
